@@ -123,7 +123,18 @@ func (c *Ctx) knownNonNil(v ssa.Value, seen map[ssa.Value]bool) bool {
 		}
 		g := c.StaticCalleeOf(&x.Call)
 		if g != nil && c.wrapOK && c.isWrapFn(g) && len(x.Call.Args) > 0 {
-			return c.knownNonNil(x.Call.Args[0], seen)
+			if c.knownNonNil(x.Call.Args[0], seen) {
+				return true
+			}
+			// the cause was found non-nil by a comparison whose edge dominates this call
+			for _, cand := range []ssa.Value{x.Call.Args[0], c.Resolve(x.Call.Args[0])} {
+				for _, e := range nonNilEdgesRaw(x.Parent(), cand) {
+					if DominatedByEdge(x.Parent(), x, e.B, e.K, PathQ{}) {
+						return true
+					}
+				}
+			}
+			return false
 		}
 		return false
 	case *ssa.UnOp:
